@@ -7,6 +7,7 @@ code -> spec : the real VerifyIndex on generated blobs with one altered byte in 
 """
 import os, json
 import vlib
+from checks import cli_common
 from checks import pipeline_common as pc
 
 
@@ -24,6 +25,8 @@ def run(rep, tier, seed):
     pc.drive(rep, work, binp, seed + 5, 200 if thorough else 40, "clean,cancel", "verify", 30, tag="cancel")
     if thorough:
         pc.drive(rep, work, binp, seed + 77, 300, "clean", "verify", 2, big=True, tag="big")
+    # the command glue: the real binary end to end, judged by CliOutcome.tla
+    cli_common.run(rep, vlib.workdir("C17-cli"), seed, "verify", tier == "thorough")
     rep.rule = ("case = blob of K chunks (K in 0..44, 0..699 thorough; equal or varied sizes) x n in {1,2,3,4,10,64} (1..64 thorough) x damage in "
                 "{none, one altered byte in a random chunk, two equal-size chunks swapped, truncated, extended} x 2 schedules; "
                 "distinct = different event sequence/instance; non-trivial = K >= 2")
@@ -31,6 +34,11 @@ def run(rep, tier, seed):
 
 
 def replay(path):
+    import json as _json
+    _d = _json.load(open(path))
+    _r = cli_common.replay_if_cli(_d, vlib.workdir("C17-cli-replay"))
+    if _r is not None:
+        return _r
     d = json.load(open(path))
     work = vlib.workdir("C17-replay")
     f = os.path.join(work, "trace.ndjson")
